@@ -322,6 +322,34 @@ def run_orders(ctx, prop):
             if len(res.samples) < 3 and oi == 0:
                 res.sample({"tree_blocks": len(blocks), "orders": len(orders), "all_orders": exhaustive,
                             "heights": [b.height for b in order], "digest": d[:120]})
+        if prop != "C04" and ti == 1:
+            # the reported balances as a function of the block, also when several threads ask one (fresh) state object at once
+            order0 = orders[0]
+            by_id0 = {b.hash(): b for b in order0}
+            want0 = {}
+            for b in order0:
+                ch, a_ = [b], b
+                while a_.previous_block_hash in by_id0:
+                    a_ = by_id0[a_.previous_block_hash]
+                    ch.append(a_)
+                ch.reverse()
+                u_ = replay_chain(ch)
+                w_ = {}
+                for (h_, i_), (v_, pk_) in u_.items():
+                    e_ = w_.setdefault(pk_, [0, 0])
+                    e_[0] += v_
+                    e_[1] += 1
+                want0[b.hash()] = sorted((k_.hex()[:8], v_[0], v_[1]) for k_, v_ in w_.items())
+
+            def jobs0():
+                cs0 = CoinState.empty()
+                for b in order0:
+                    cs0 = cs0.add_block_no_validation(b)
+                return [((lambda h_=h_: sorted((k_.public_key.hex()[:8], v_.value, len(v_.output_references))
+                                               for k_, v_ in cs0.public_key_balances_by_hash[h_].items()
+                                               if v_.value != 0 or v_.output_references)),
+                         want0[h_], "balances at block %s" % h_.hex()[:8]) for h_ in list(want0)[-8:]]
+            kit.concurrent_probe(res, "public_key_balances_by_hash", jobs0, seconds=1.5)
         model = ctx.driver.ask(ops)
         kit.compare(res, ops, impl, model)
     chain.unpatch()
